@@ -15,6 +15,7 @@ agree = Base.agree; nontrivial = Base.nontrivial; signature = Base.signature; ex
 
 
 def classify(op, m):
+    op = op.replace('cbor.enc.plain ', 'cbor.enc ', 1) if op.startswith('cbor.enc.plain ') else op
     t = op.split(' ')
     kind = t[2][0] if len(t) > 2 else '?'
     return f'enc:{kind}:{m.split(" ")[0]}' + (':' + m.split(' ')[1] if m.startswith('err') else '')
@@ -85,6 +86,14 @@ def map_script(rng, n, depth=0, dup=False):
 
 
 def generate(tier, rng):
+    # every op that involves a string is also run through a destination that is only an io.Writer (no WriteString fast path)
+    for op in generate0(tier, rng):
+        yield op
+        if op.startswith('cbor.enc ') and (' t' in op or ' b' in op) and len(op) < 4000:
+            yield 'cbor.enc.plain ' + op[len('cbor.enc '):]
+
+
+def generate0(tier, rng):
     thorough = tier == 'thorough'
     for v in near([0, 24, 2**8, 2**16, 2**32, 2**63, 2**64 - 1], 40, 0, 2**64 - 1):
         yield f'cbor.enc 1 u{v}'
